@@ -248,6 +248,11 @@ fn mixes() -> Vec<Mix> {
         Mix { hostile: 2, partial: false, name: "SO+SO masked call after a ratio decrease".to_string(), cfgs: vec![so.clone(), { let mut c = so.clone(); c.max_rel = 8.0; c }] },
         Mix { hostile: 2, partial: false, name: "SI+FO masked call after a ratio decrease".to_string(), cfgs: vec![si.clone(), { let mut c = fo.clone(); c.max_rel = 4.0; c }] },
         Mix { hostile: 2, partial: false, name: "FI+SO masked call after a ratio decrease".to_string(), cfgs: vec![{ let mut c = fi.clone(); c.max_rel = 4.0; c }, so.clone()] },
+        Mix { hostile: 0, partial: false, name: "SI+SO+SI 512 table entries split 32x16, 16x32, 64x8".to_string(), cfgs: vec![
+            Cfg::sinc(Kind::SI, 1.2, 2.0, 24, 32, 16, Interp::Cubic, Kernel::Dispatch).with_channels(2),
+            Cfg::sinc(Kind::SO, 1.2, 2.0, 24, 16, 32, Interp::Cubic, Kernel::Dispatch).with_channels(2),
+            Cfg::sinc(Kind::SI, 1.2, 2.0, 24, 64, 8, Interp::Cubic, Kernel::Dispatch).with_channels(2),
+        ] },
         Mix { hostile: 0, partial: false, name: "FO+FO ratios 3e-5 apart".to_string(), cfgs: vec![fo.clone(), { let mut c = fo.clone(); c.ratio += 3.0e-5; c }] },
     ];
     // lifecycles: three instances with distinct settings built in every order, one of them
@@ -261,6 +266,9 @@ fn mixes() -> Vec<Mix> {
         };
         v.push(Mix { hostile: 0, partial: false, name: "lifecycle sinc: three windows".to_string(), cfgs: vec![w(rubato::WindowFunction::Hann2, 16, 8), w(rubato::WindowFunction::Blackman2, 16, 8), w(rubato::WindowFunction::BlackmanHarris2, 16, 8)] });
         v.push(Mix { hostile: 0, partial: false, name: "lifecycle sinc: three shapes".to_string(), cfgs: vec![w(rubato::WindowFunction::BlackmanHarris2, 16, 8), w(rubato::WindowFunction::BlackmanHarris2, 24, 8), w(rubato::WindowFunction::BlackmanHarris2, 16, 16)] });
+        // the same number of table entries, cutoff and window, split differently into taps and
+        // sub-filters
+        v.push(Mix { hostile: 0, partial: false, name: "lifecycle sinc: three splits of 512 table entries".to_string(), cfgs: vec![w(rubato::WindowFunction::BlackmanHarris2, 32, 16), w(rubato::WindowFunction::BlackmanHarris2, 16, 32), w(rubato::WindowFunction::BlackmanHarris2, 64, 8)] });
         v.push(Mix { hostile: 0, partial: false, name: "lifecycle fft: three blocks".to_string(), cfgs: vec![Cfg::fft(Kind::XX, 2, 1, 96, 1).with_channels(2), Cfg::fft(Kind::XX, 2, 1, 288, 1).with_channels(2), Cfg::fft(Kind::XX, 2, 1, 192, 1).with_channels(2)] });
         v.push(Mix { hostile: 0, partial: false, name: "lifecycle fast: three degrees".to_string(), cfgs: vec![fi.clone(), { let mut c = fi.clone(); c.degree = Degree::Septic; c }, { let mut c = fi.clone(); c.degree = Degree::Linear; c }] });
     }
